@@ -21,7 +21,7 @@ fn method(did: &IotaDID, fragment: &str) -> VerificationMethod {
     .unwrap()
 }
 
-fn document() -> (IotaDocument, IotaDID, IotaDID) {
+pub fn document() -> (IotaDocument, IotaDID, IotaDID) {
   let did_self = IotaDID::parse(SELF).unwrap();
   let did_foreign = IotaDID::parse(FOREIGN).unwrap();
   let mut document = IotaDocument::new_with_id(did_self.clone());
